@@ -522,6 +522,7 @@ const BPCS: &[&str] = &["8", "1", "2", "4", "16"];
 const COLS: &[&str] = &["1", "2", "3", "4", "5"];
 const CARRIER: &[&str] = &["flate", "lzw", "lzw-early0", "flate-raw"];
 const DATAV: &[&str] = &["ramp", "lcg", "zeros", "ff"];
+const ROWS: &[&str] = &["3", "1", "2"];
 
 fn geometry_case(ch: &mut Chooser, t: &mut Tally) {
     let pred = ch.pick_free_named("pred", PRED_NAMES);
@@ -530,7 +531,7 @@ fn geometry_case(ch: &mut Chooser, t: &mut Tally) {
     let bpc: usize = [8, 1, 2, 4, 16][ch.pick_free_named("bpc", BPCS)];
     let columns = ch.pick_free_named("columns", COLS) + 1;
     let datav = ch.pick_free_named("data", DATAV);
-    let rows = 3;
+    let rows = [3usize, 1, 2][ch.pick_free_named("rows", ROWS)];
     let rb = pf::row_bytes(colors, bpc, columns);
     let n = rb * rows;
     let mut x: u32 = 0xC0FFEE ^ (colors * 131 + bpc * 17 + columns) as u32;
@@ -711,12 +712,24 @@ fn corruption(tier: Tier, tally: &mut Tally) {
                     continue;
                 }
                 let f = enc_filter(e, *g);
+                // what the undamaged data decodes to, before any failure happened on this thread
+                let reference = catch(|| decode(&enc, &f)).ok().and_then(|r| r.ok());
                 let mut try_one = |buf: &[u8], what: &str, t: &mut Tally| {
                     t.evaluations += 1;
                     t.distinct.insert(fnv_mix(fnv(buf), (ei * 2 + gi) as u64));
                     match catch(|| decode(buf, &f)) {
                         Ok(Ok(_)) => t.outcome("value"),
-                        Ok(Err(_)) => t.outcome("error"),
+                        Ok(Err(_)) => {
+                            t.outcome("error");
+                            // a failed decode must leave nothing behind: the undamaged data still decodes to the same bytes
+                            if let Some(want) = &reference {
+                                let again = catch(|| decode(&enc, &f));
+                                if !matches!(&again, Ok(Ok(d)) if d == want) {
+                                    let devs = vec![format!("filter={}", filter_name(e)), "after-failed-decode".to_string()];
+                                    t.fail("c05.corrupt", "decode-depends-on-earlier-failure", devs, format!("after the failed decode of {} the undamaged {} data no longer decodes to the same bytes: {:?}", show_bytes(buf), name, again.map(|r| r.map(|d| d.len()).map_err(|e| err_variant(&e)))), json!({"engine": "c05.corrupt", "enc": ei, "geometry": gi, "input_hex": hex(buf), "clean_hex": hex(&enc)}));
+                                }
+                            }
+                        }
                         Err((loc, msg)) => {
                             let kind = panic_kind(&loc);
                             t.outcome(&kind);
@@ -768,7 +781,7 @@ pub fn run(tier: Tier, _seed: u64, tally: &mut Tally) -> CheckMeta {
         prop: "C05",
         level: "model_checking",
         rule: format!(
-            "exhaustive kernels ({} ASCII85 groups, all 256 hex pairs x case x white-space placement, all run-length headers, all (left,up) pairs for Sub/Up/Avg and {} for Paeth through flate_decode+Predictor 15); all byte strings of length <= {} x {} independent encoder variants; full product of predictor geometry (8 predictors x 4 carriers x Colors 1-4 x BPC {{1,2,4,8,16}} x Columns 1-5 x 4 data variants, 3 rows); all filter chains of length <= 3 x 10 buffers via enc::decode and via Stream::data on generated files; every truncation and single-byte substitution (8 values) of encoded buffers. A case is non-trivial/distinct by the hash of its encoded bytes + parameters (sweeps are distinct by construction).",
+            "exhaustive kernels ({} ASCII85 groups, all 256 hex pairs x case x white-space placement, all run-length headers, all (left,up) pairs for Sub/Up/Avg and {} for Paeth through flate_decode+Predictor 15); all byte strings of length <= {} x {} independent encoder variants; full product of predictor geometry (8 predictors x 4 carriers x Colors 1-4 x BPC {{1,2,4,8,16}} x Columns 1-5 x 4 data variants x {{1, 2, 3}} rows); all filter chains of length <= 3 x 10 buffers via enc::decode and via Stream::data on generated files; every truncation and single-byte substitution (8 values) of encoded buffers, each failed decode followed by a decode of the undamaged data on the same thread (same bytes as before). A case is non-trivial/distinct by the hash of its encoded bytes + parameters (sweeps are distinct by construction).",
             if tier.thorough() { "all 2^32" } else { "all words with <=2 non-zero bytes / <=2 non-'!' digits of" },
             if tier.thorough() { "all 2^24 (left,up,upper-left) triples" } else { "18 boundary upper-left values x all pairs" },
             maxlen,
@@ -847,9 +860,18 @@ pub fn replay(case: &Value, tally: &mut Tally) {
             let g = [Geometry::NONE, Geometry { predictor: 12, colors: 1, bpc: 8, columns: 2 }][gi];
             let f = enc_filter(ENCS[ei].1, g);
             println!("filter={:?} input={}", f, show_bytes(&buf));
+            let clean = case["clean_hex"].as_str().map(unhex);
+            let before = clean.as_ref().map(|c| catch(|| decode(c, &f)));
             match catch(|| decode(&buf, &f)) {
                 Ok(r) => println!("result: {:?}", r.map(|v| v.len()).map_err(|e| err_variant(&e))),
                 Err((loc, msg)) => tally.fail("c05.corrupt", &panic_kind(&loc), vec![], msg, case.clone()),
+            }
+            if let (Some(c), Some(Ok(Ok(want)))) = (clean.as_ref(), before) {
+                let again = catch(|| decode(c, &f));
+                println!("undamaged data before: {} bytes; after the failed decode: {:?}", want.len(), again.as_ref().map(|r| r.as_ref().map(|d| d.len()).map_err(|e| err_variant(e))).map_err(|e| e.0.clone()));
+                if !matches!(&again, Ok(Ok(d)) if d == &want) {
+                    tally.fail("c05.corrupt", "decode-depends-on-earlier-failure", vec!["after-failed-decode".into()], "the undamaged data no longer decodes to the same bytes".into(), case.clone());
+                }
             }
         }
         "c05.pngrow" => {
